@@ -2,6 +2,7 @@ package main
 
 import (
 	"fmt"
+	"sort"
 	"sync"
 	"time"
 
@@ -15,8 +16,16 @@ import (
 // later request is waiting" with the additional twist that so many references
 // were minted in between that the later request carries a reference equal to
 // the one of the timed-out request — if (and only if) the node's references
-// repeat.  The scenario decides that by observation: it mints references until
-// the one of the timed-out request shows up again (bounded by 2^18+4096 calls).
+// repeat.
+//
+// Step 1 (scan) decides by observation whether references repeat at all: it
+// mints a window of 2*2^18+4096 references and looks for ANY two equal ones
+// (whatever the distance, whatever the phase of the counter: a repeat that
+// exists only for counter values with a certain bit clear, or only once, is
+// found as well).  Step 2 builds the history for the distances seen: request
+// 2k times out, exactly d-1 references are minted, request 2k+1 is made; the
+// callee reports whether both requests carried the same reference.  Attempts
+// start at different counter phases (every attempt moves the counter by d).
 
 type wrapCmd struct {
 	To      any
@@ -36,6 +45,23 @@ type wrapSeen struct {
 	Ref  gen.Ref
 }
 
+const wrapWindow = 2*(1<<18) + 4096
+
+// scanRefRepeats mints `window` references on n and returns the distances between equal references
+// (distance -> number of pairs) found in that window
+func scanRefRepeats(n *hk.HNode, window int) map[int]int {
+	seen := make(map[[3]uint64]int, window)
+	dist := map[int]int{}
+	for i := 0; i < window; i++ {
+		r := n.MakeRef()
+		if j, ok := seen[r.ID]; ok {
+			dist[i-j]++
+		}
+		seen[r.ID] = i
+	}
+	return dist
+}
+
 func runWrap() {
 	runWrapOn("local", nodeA)
 	if nodeB != nil {
@@ -48,11 +74,9 @@ func runWrapOn(where string, calleeNode *hk.HNode) {
 	if !hk.Want(id) {
 		return
 	}
-	const limit = (1 << 18) + 4096
 	b := &book{tokens: map[int]chan struct{}{}}
 	var mu sync.Mutex
-	var seen []wrapSeen
-	var first *wrapSeen
+	held := map[int]wrapSeen{}
 	var staleRes []string
 
 	calleeF, _ := actors.NewProbe(id+"/callee", &actors.Hooks{
@@ -62,17 +86,14 @@ func runWrapOn(where string, calleeNode *hk.HNode) {
 				return "?", nil
 			}
 			mu.Lock()
-			seen = append(seen, wrapSeen{N: r.N, From: from, Ref: ref})
-			f := first
-			if r.N == 0 {
-				first = &wrapSeen{N: 0, From: from, Ref: ref}
-			}
+			held[r.N] = wrapSeen{N: r.N, From: from, Ref: ref}
+			f, have := held[r.N-1]
 			mu.Unlock()
-			if r.N == 0 {
-				return nil, nil // never answered in time: the caller times out
+			if r.N%2 == 0 || !have {
+				return nil, nil // even requests are never answered in time: the caller times out
 			}
-			// the late reply to request 0 ...
-			err := p.SendResponse(f.From, f.Ref, b.mkRep(r.Caller, 0, 1, "stale"))
+			// the late reply to the preceding (timed-out) request ...
+			err := p.SendResponse(f.From, f.Ref, b.mkRep(r.Caller, f.N, 1, "stale"))
 			mu.Lock()
 			staleRes = append(staleRes, resText(err))
 			mu.Unlock()
@@ -114,91 +135,83 @@ func runWrapOn(where string, calleeNode *hk.HNode) {
 			return wrapRes{}, false
 		}
 	}
-	r0, ok := call(0, 1)
-	if !ok || r0.Err != gen.ErrTimeout {
-		emit(hk.Case{Verdict: hk.Inconclusive, What: fmt.Sprintf("request 0 did not time out: %v %v", r0.Val, r0.Err), Events: 1})
+
+	// step 1: do references of the calling node repeat at all?
+	dist := scanRefRepeats(nodeA, wrapWindow)
+	hk.Stat("wrap_refs_minted_and_compared", int64(wrapWindow))
+	if len(dist) == 0 {
+		emit(hk.Case{Verdict: hk.Held, Key: "ref-wrap/" + where + "/no-repeat-in-window", Nontrivial: false, Events: 1,
+			What: fmt.Sprintf("no two of %d consecutively minted references were equal: the colliding history cannot be built", wrapWindow)})
 		return
 	}
-	mu.Lock()
-	f := first
-	mu.Unlock()
-	if f == nil {
-		emit(hk.Case{Verdict: hk.Inconclusive, What: "request 0 was not seen by the callee", Events: 1})
-		return
+	var ds []int
+	for d := range dist {
+		ds = append(ds, d)
 	}
-	ref0 := f.Ref
-	// mint references until ref0 shows up again
-	var prev, r gen.Ref
-	minted := 0
-	repeat := false
-	for minted < limit {
-		prev = r
-		r = nodeA.MakeRef()
-		minted++
-		if r == ref0 {
-			repeat = true
-			break
-		}
+	sort.Ints(ds)
+	if len(ds) > 3 {
+		ds = ds[:3]
 	}
-	hk.Stat("wrap_refs_minted_and_compared", int64(minted))
-	if !repeat {
-		emit(hk.Case{Verdict: hk.Held, Key: "ref-wrap/" + where + "/no-repeat-within-2^18+4096", Nontrivial: false, Events: 3,
-			What: "references did not repeat: the colliding history cannot be built"})
-		return
-	}
-	period := minted
-	if minted == 1 {
-		// the very next reference is the same again: any request collides
-		prev = gen.Ref{}
-	}
-	// line the counter up so that the caller's next Call mints ref0 again
+
+	// step 2: build the history
 	var res wrapRes
-	var got gen.Ref
+	var ref0, got gen.Ref
 	collided := false
-	n := 0
-	total := minted
-	for attempt := 0; attempt < 3 && !collided; attempt++ {
-		if period > 1 {
-			k := 0
-			for ; k < limit; k++ {
-				total++
-				if nodeA.MakeRef() == prev {
-					break
-				}
-			}
-			if k == limit {
-				break
-			}
-		}
-		n++
-		var ok bool
-		res, ok = call(n, 2)
-		if !ok {
-			emit(hk.Case{Verdict: hk.Inconclusive, What: "watchdog: call did not return", Events: int64(total)})
+	n := -1
+	usedD := 0
+	events := int64(1)
+	for attempt := 0; attempt < 6 && !collided; attempt++ {
+		d := ds[attempt%len(ds)]
+		n += 2
+		r0, ok := call(n-1, 1)
+		events++
+		if !ok || r0.Err != gen.ErrTimeout {
+			emit(hk.Case{Verdict: hk.Inconclusive, What: fmt.Sprintf("request %d did not time out: %v %v", n-1, r0.Val, r0.Err), Events: events})
 			return
 		}
 		mu.Lock()
-		for _, s := range seen {
-			if s.N == n {
-				got = s.Ref
+		f, have := held[n-1]
+		mu.Unlock()
+		if !have {
+			emit(hk.Case{Verdict: hk.Inconclusive, What: "the timed-out request was not seen by the callee", Events: events})
+			return
+		}
+		ref0 = f.Ref
+		early := false
+		for k := 0; k < d-1; k++ {
+			if nodeA.MakeRef() == ref0 {
+				early = true // a shorter distance than scanned, now used up: next attempt
+				break
 			}
 		}
+		if early {
+			continue
+		}
+		res, ok = call(n, 2)
+		events++
+		if !ok {
+			emit(hk.Case{Verdict: hk.Inconclusive, What: "watchdog: call did not return", Events: events})
+			return
+		}
+		mu.Lock()
+		got = held[n].Ref
 		mu.Unlock()
 		collided = got == ref0
+		usedD = d
 	}
-	detail := map[string]any{"ref_of_timed_out_request": ref0.String(), "ref_of_later_request": got.String(), "refs_minted_until_repeat": period,
+	detail := map[string]any{"repeat_distances_seen_in_scan": dist, "ref_of_timed_out_request": ref0.String(), "ref_of_later_request": got.String(), "refs_minted_between": usedD - 1,
 		"later_request_n": n, "returned_value": fmt.Sprintf("%+v", res.Val), "returned_error": fmt.Sprint(res.Err), "stale_send_results": staleRes}
 	if !collided {
-		emit(hk.Case{Verdict: hk.Inconclusive, What: "references repeat but the counter could not be lined up (concurrent minting)", Events: int64(total), Detail: detail})
+		emit(hk.Case{Verdict: hk.Inconclusive, What: fmt.Sprintf("references repeat (distances %v) but no attempt gave the later request the reference of the timed-out one", ds), Events: events, Detail: detail})
 		return
 	}
-	c := hk.Case{Key: "ref-wrap/" + where + "/same-ref-after-" + fmt.Sprint(period), Nontrivial: true, Events: int64(2*n + 3), Detail: detail}
+	c := hk.Case{Key: "ref-wrap/" + where + "/same-ref-after-" + fmt.Sprint(usedD), Nontrivial: true, Events: events, Detail: detail}
 	rep, isRep := res.Val.(Rep)
 	switch {
 	case res.Err == nil && isRep && rep.N != n:
 		c.Verdict = hk.Violated
 		c.Sig = "stale-reply-accepted-after-ref-wrap"
-		c.What = fmt.Sprintf("request n=%d (ref %s) returned %+v, the late reply made for the timed-out request n=0: after %d MakeRef calls the node minted the reference of request 0 again, so waitResponse accepted the late reply as the answer of the later request", n, got, rep, period)
+		c.What = fmt.Sprintf("request n=%d (ref %s) returned %+v, the late reply made for the timed-out request n=%d: %d MakeRef calls later the node minted the reference of that request again, so waitResponse accepted the late reply as the answer of the later request", n, got, rep, n-1, usedD)
 	case res.Err == nil && !isRep:
 		c.Verdict = hk.Violated
 		c.Sig = "call-returned-unknown-value"
